@@ -1,3 +1,5 @@
+import KmipGen.CodecSrc
+import KmipModel.ExpectCodec
 import KmipModel.ExpectSkel
 import KmipGen.Skeleton
 /-
@@ -8,4 +10,16 @@ namespace Kmip
 theorem GenC08_serve_skeleton : KmipGen.skel_Server_serve = ExpectSkel.skel_Server_serve := by decide
 theorem GenC08_handleBatch_skeleton : KmipGen.skel_Server_handleBatch = ExpectSkel.skel_Server_handleBatch := by decide
 theorem GenC08_handleWrapped_skeleton : KmipGen.skel_Server_handleWrapped = ExpectSkel.skel_Server_handleWrapped := by decide
+end Kmip
+
+/-
+  Codec source tie (re-checked against /repo's current source on every run): the normalised source of every function of
+  the groups below, as kvscan reads it from /repo now, is the text the model was validated against (KmipModel/ExpectCodec.lean;
+  readable form in KmipModel/ExpectCodecSrc.txt). See harness/cmd/kvscan/srcdigest.go for the normalisation.
+-/
+namespace Kmip
+
+/-- protocol errors (errors.go) -/
+theorem GenC08_codec_src_err : KmipGen.codecSrc_err = ExpectCodec.codecSrc_err := by decide
+
 end Kmip
